@@ -115,7 +115,8 @@ class RG:
         k = self.r.random()
         if k < 0.12:
             return self.unop(a)
-        b = self.coerce(self.r.choice(pool), self.typ[a])
+        others = [x for x in pool if x != a] or pool
+        b = self.coerce(self.r.choice(others), self.typ[a])
         if k < 0.25 and len(pool) >= 2:
             sel = self.coerce(self.r.choice(pool), 'b')
             return self.mux(sel, a, b)
@@ -202,9 +203,8 @@ def t_pipeline(g, ff=False):
         g.feat.add("two-outputs")
     final = []
     for o in outs:
-        if stages < maxstages or stages == 0 or r.random() < 0.3:
-            if stages == 0 or r.random() < 0.8:
-                o = g.hint(o); stages = max(stages, 1)
+        if stages == 0 or (stages < maxstages and r.random() < 0.7):
+            o = g.hint(o); stages += 1
         final.append(o)
     if stall:
         g.emit("endenif")
@@ -424,7 +424,7 @@ def gen(seed, did, only=None):
         if k < wgt:
             break
         k -= wgt
-    if rng.random() < 0.3:
+    if rng.random() < 0.3 and not nm.startswith("autostate"):
         g.emit("keeprefs")
         g.feat.add("keeprefs")
     meta = fn(g)
